@@ -551,3 +551,176 @@ def vc_ne_inner(prog, state_kind='edge', family='base'):
     rep = verify_function(prog, fv, setup, goals, models=models, hooks=hooks, contracts=contracts, end_goals=end_goals,
                           name=f"BaseMatcher._match_non_emitting_states_inner[{state_kind},{family}]")
     return fv, rep
+
+
+# =============================================================================================== _create_start_nodes
+def vc_create_start_nodes(prog, use_edges=True, family='base', expansion=False):
+    """Start candidates: exactly one first() per tuple of the spatial query (degenerate edges skipped), arguments passed
+    through unchanged (max_dist_init to the query; dist/projection/relative position into the Segment and first()), every
+    non-None candidate upserted once into column 0; in an expansion round nothing is created or rebuilt (C01, C05, C08)."""
+    fv = prog.func(K.BASE, 'BaseMatcher._create_start_nodes')
+    st = {}
+    mcls = 'DistanceMatcher' if family == 'distance' else 'BaseMatcher'
+    ecls = 'DistanceMatching' if family == 'distance' else 'BaseMatching'
+    npath = I('len_path')
+    p0 = (R('p0y'), R('p0x'))
+
+    def setup(ctx, it):
+        st.clear()
+        st['calls'] = []
+        matcher = K.mk_matcher(mcls)
+        matcher.f['path'] = Obj('Path', pt=p0, n=npath)
+        matcher.f['lattice'] = Obj('Lattice', tag_='old')
+        matcher.f['max_lattice_width'] = None
+        matcher.f['matching'] = ClassVal(ecls)
+        st['matcher'] = matcher
+        st['old_lattice'] = matcher.f['lattice']
+        ctx.assume(npath >= 1)
+        if expansion:
+            ctx.assume(matcher.f['expand_now'] > 0)
+        else:
+            ctx.assume(matcher.f['expand_now'] == 0)
+        return [matcher], {'use_edges': use_edges}
+
+    def h_index_path(it, o, i):
+        st.setdefault('path_idx', []).append(i)
+        return o.f['pt']
+
+    def h_len_path(it, o):
+        return o.f['n']
+
+    def h_index_lattice(it, o, i):
+        key = z3.simplify(to_z3(i)).sexpr()
+        cols = o.f.setdefault('cols', {})
+        if key not in cols:
+            cols[key] = Obj('Column', idx=i, lat=o)
+        return cols[key]
+
+    def m_closeto(kind):
+        def f(it, o, loc, max_dist=None, max_elmt=None):
+            st['query'] = (kind, loc, max_dist, max_elmt)
+
+            def elem(it_):
+                c = it_.ctx
+                if kind == 'edges':
+                    a, b = c.fresh('ql1', 'L'), c.fresh('ql2', 'L')
+                    t = (c.fresh('qd'), a, coord(a), b, coord(b), (c.fresh('qpiy'), c.fresh('qpix')), c.fresh('qti'))
+                else:
+                    a = c.fresh('ql', 'L')
+                    t = (c.fresh('qd'), a, coord(a))
+                return t, [t[0] >= 0]
+            n = it.ctx.fresh('n_cands', 'I')
+            it.ctx.assume(n >= 0)
+            return SymColl(f'{kind}_closeto', elem, length=n)
+        return f
+
+    def c_first(it, fv_, args, kw):
+        k = it.ctx.choice(2, 'first-result')
+        res = None
+        if k == 0:
+            res = K.mk_matching(f"st{len(st['calls'])}", st['matcher'], ecls, edge_m=args[2], edge_o=args[3])
+        st['calls'].append({'cls': args[0], 'lp_init': args[1], 'edge_m': args[2], 'edge_o': args[3], 'matcher': args[4],
+                            'dist_obs': args[5], 'result': res})
+        return res
+
+    def c_upsert(it, col, m):
+        it.ctx.events.append(Event('upsert', col=col, obj=m))
+        return m
+
+    def c_prune(it, col, *a, **kw):
+        it.ctx.events.append(Event('prune', col=col, args=a, kw=kw))
+        return None
+
+    def c_len_col(it, col):
+        return it.ctx.fresh('n_layers', 'I')
+    models = dict(K.base_models())
+    models.update({('meth', 'Map', 'edges_closeto'): Model('map.edges_closeto', m_closeto('edges')),
+                   ('meth', 'Map', 'nodes_closeto'): Model('map.nodes_closeto', m_closeto('nodes')),
+                   ('meth', 'Column', 'upsert'): Model('LatticeColumn.upsert', c_upsert),
+                   ('meth', 'Column', 'prune'): Model('LatticeColumn.prune', c_prune),
+                   ('meth', 'Column', '__len__'): Model('LatticeColumn.__len__', c_len_col),
+                   ('meth', 'LatticeColumn', 'upsert'): Model('LatticeColumn.upsert', c_upsert),
+                   ('meth', 'LatticeColumn', 'prune'): Model('LatticeColumn.prune', c_prune)})
+    hooks = {('index', 'Path'): h_index_path, ('len', 'Path'): h_len_path, ('index', 'Lattice'): h_index_lattice,
+             ('len', 'Column'): c_len_col}
+    contracts = {'BaseMatching.first': c_first}
+
+    # the loop that creates one column per observation: recognised by its iterable
+    import ast
+    loops_ast = sorted([x for x in ast.walk(fv.node) if isinstance(x, (ast.For, ast.While))], key=lambda x: (x.lineno, x.col_offset))
+    col_loops = [i for i, x in enumerate(loops_ast) if isinstance(x, ast.For) and 'range(len(self.path))' in ast.unparse(x.iter).replace(' ', '')]
+
+    def cols_after(it, env):
+        # after the loop: a fresh lattice with one (empty) column per observation index
+        env['self'].f['lattice'] = Obj('Lattice', tag_='new')
+        st['rebuilt'] = True
+
+    def cols_body_post(it, env, pre, elem, events, how):
+        lat = env['self'].f['lattice']
+        ok = isinstance(lat, dict) and any(eq(k, elem) is True or (z3.is_expr(k) and z3.is_expr(elem) and z3.eq(k, elem)) for k in lat)
+        v = [vv for kk, vv in (lat.items() if isinstance(lat, dict) else []) if (z3.is_expr(kk) and z3.eq(kk, elem))]
+        it.ctx.oblige("start:one-empty-column-per-observation",
+                      b2z(ok and len(v) == 1 and isinstance(v[0], Obj) and v[0].cls == 'LatticeColumn' and eq(v[0].f.get('obs_idx'), elem) is not False
+                          and v[0].f.get('o') == []), kind='post')
+    loops = {}
+    if len(col_loops) == 1:
+        loops[(fv.qual, col_loops[0])] = {'after': cols_after, 'body_post': cols_body_post}
+
+    def common(ctx):
+        m = st['matcher']
+        g = []
+        if expansion:
+            g.append(('start:expansion-round-creates-nothing', b2z(len(st['calls']) == 0 and 'query' not in st and not st.get('rebuilt')
+                                                                   and m.f['lattice'] is st['old_lattice']
+                                                                   and not any(e.kind == 'upsert' for e in ctx.events))))
+            pr = [e for e in ctx.events if e.kind == 'prune']
+            g.append(('start:expansion-round-only-re-prunes-column-0', b2z(len(pr) == 1 and eq(pr[0].col.f['idx'], 0) is True) if len(pr) == 1 else z3.BoolVal(False)))
+            return g
+        q = st.get('query')
+        g.append(('start:spatial-query-for-the-first-observation-with-max_dist_init',
+                  b2z(q is not None and q[0] == ('edges' if use_edges else 'nodes') and eq(q[1], p0) is True and q[2] is m.f['max_dist_init'] and q[3] is None)))
+        g.append(('start:lattice-rebuilt', b2z(bool(st.get('rebuilt')))))
+        return g
+
+    def end_goals(ctx, why):
+        cand = [e for e in ctx.events if e.kind == 'iter-begin' and isinstance(e.elem, tuple) and len(e.elem) in (3, 7)]
+        if not cand:
+            return []          # iteration of the column-creating loop: its own body obligation has been emitted
+        g = common(ctx) if not expansion else []
+        t = cand[-1].elem
+        calls = st['calls']
+        ups = [e for e in ctx.events if e.kind == 'upsert']
+        m = st['matcher']
+        if use_edges:
+            dist_obs, l1, c1, l2, c2, pi, ti = t
+            cond = l1 != l2
+
+            def ok(c):
+                em, eo = c['edge_m'].f, c['edge_o'].f
+                return zand(eq(em['l1'], l1), eq(em['l2'], l2), eq(em['p1'], c1), eq(em['p2'], c2), eq(em['_pi'], pi), eq(em['_ti'], ti),
+                            eo['l2'] is None, eq(eo['p1'], p0), eq(c['dist_obs'], dist_obs), c['matcher'] is m,
+                            eq(to_z3(c['lp_init']), z3.RealVal(0)), isinstance(c['cls'], ClassVal) and c['cls'].name == ecls)
+        else:
+            dist_obs, l1, c1 = t
+            cond = True
+
+            def ok(c):
+                em, eo = c['edge_m'].f, c['edge_o'].f
+                return zand(eq(em['l1'], l1), em['l2'] is None, eq(em['p1'], c1), eo['l2'] is None, eq(eo['p1'], p0),
+                            eq(c['dist_obs'], dist_obs), c['matcher'] is m, eq(to_z3(c['lp_init']), z3.RealVal(0)))
+        g.append(('start:one-first()-per-candidate-with-unchanged-arguments', b2z(align(calls, [(cond, ok)]))))
+        if calls and calls[0]['result'] is not None:
+            g.append(('start:candidate-upserted-once-into-column-0', b2z(len(ups) == 1 and ups[0].obj is calls[0]['result'] and eq(ups[0].col.f.get('idx'), 0) is True)
+                      if len(ups) == 1 else z3.BoolVal(False)))
+        else:
+            g.append(('start:nothing-filed-without-a-candidate', b2z(len(ups) == 0)))
+        return [(n, b2z(f)) for n, f in g]
+
+    def goals(ctx, res):
+        g = common(ctx)
+        if not expansion:
+            g.append(('start:no-candidates-returns-zero-or-layer-count', b2z(z3.is_expr(res) or res == 0)))
+        return [(n, b2z(f)) for n, f in g]
+    rep = verify_function(prog, fv, setup, goals, models=models, hooks=hooks, contracts=contracts, loops=loops, end_goals=end_goals,
+                          name=f"BaseMatcher._create_start_nodes[{'edges' if use_edges else 'nodes'},{family},{'expansion' if expansion else 'fresh'}]")
+    return fv, rep
